@@ -17,8 +17,12 @@ package provenance
 
 //@ func (*Signatory).Verify
 //@   props C17
-//@   requires s != nil && (hasSigBlock(sigpath) ==> sigBlockOf(sigpath).ArmoredSignature != nil)
+//@   requires s != nil
 //@   ensures [accepts-only-signed] err == nil ==> signedOK(s, sigpath)
 //@   ensures [accepts-only-matching-digest] err == nil ==> listedSum(sigpath, chartpath)
 //@   ensures [reports] err == nil ==> result != nil && result.FileHash == "sha256:" + fileDigest(chartpath) && result.FileName == fbase(chartpath)
 //@   ensures [result-always] result != nil
+
+//@ func NewFromKeyring
+//@   props C17
+//@   ensures [ring-of-the-given-file] err == nil ==> result != nil && box(result.KeyRing) == ringOfFile(keyringfile)
